@@ -13,16 +13,24 @@ one reply, the subject is still active and still answers a round trip, and a cha
 from pv import lib_runloop as L
 from pv.core import InfraError, exc_site, hx
 
-SITUATIONS = [  # (subject role, class, authenticate, Transport.set_hexdump)
-    ("server", "Transport", True, False),
-    ("client", "Transport", True, False),
-    ("client", "SRT", True, False),
-    ("server", "SRT", True, False),
-    ("server", "Transport", True, True),
-    ("client", "Transport", True, True),
-    ("client", "SRT", True, True),
-    ("server", "SRT", True, True),
+SITUATIONS = [  # (subject role, class, authenticate, Transport.set_hexdump, cipher | None = default, strict kex,
+    #                re-exchanges before the sweep)
+    ("server", "Transport", True, False, None, True, 0),
+    ("client", "Transport", True, False, None, True, 0),
+    ("client", "SRT", True, False, None, True, 0),
+    ("server", "SRT", True, False, None, True, 0),
+    ("server", "Transport", True, True, None, True, 0),
+    ("client", "Transport", True, True, None, True, 0),
+    ("client", "SRT", True, True, None, True, 0),
+    ("server", "SRT", True, True, None, True, 0),
 ]
+# cipher family (ctr / cbc: MAC over the sequence number; gcm: AEAD, sequence number not authenticated) x strict kex
+# on/off, both roles; the strict ones also after re-exchanges (counters restart at every NEWKEYS)
+for _role in ("server", "client"):
+    for _cipher, _strict, _rekeys in (("aes128-gcm@openssh.com", True, 0), ("aes256-gcm@openssh.com", True, 2),
+                                      ("aes128-gcm@openssh.com", False, 1), ("aes128-cbc", True, 1),
+                                      ("aes256-ctr", False, 0), ("aes128-ctr", True, 2)):
+        SITUATIONS.append((_role, "Transport", True, False, _cipher, _strict, _rekeys))
 MAX_DEATHS = 6
 
 
@@ -80,7 +88,7 @@ def rekey_window(ctx, role, cls, rng, tables, cases):
         if not pair.barrier():
             raise InfraError("session not usable before the re-exchange")
         pair.unimpl.clear()
-        gate.gate.clear()                       # the peer reads nothing from now on
+        gate.close_gate()                       # the peer reads nothing from now on
         sub._send_kex_init()                    # what renegotiate_keys() does: in_kex, KEXINIT on the wire
         si0, so0 = L.seq_in(sub), L.seq_out(sub)
         sent = []
@@ -134,7 +142,8 @@ def run(ctx):
     L.stub_gss()
     rng = ctx.rng
     ctx.rule = ("exhaustive: every type number 0..255 for which the live tables of the subject transport have no "
-                "handler, in 8 situations (server/client x Transport/ServiceRequestingTransport x packet hexdump off/on, auth handler "
+                "handler, in 20 situations (server/client x Transport/ServiceRequestingTransport x packet hexdump off/on; server/client x "
+                "cipher family ctr/cbc/gcm x strict kex on/off, some after re-exchanges; auth handler "
                 "std/only) and, for both roles, once more while a re-exchange started by the subject is in flight "
                 "(own KEXINIT sent, peer's not yet processed), each with a fresh random payload (0..3000 bytes; thorough: 3 payloads, up to "
                 "20000), sent by a real authenticated peer; plus batches of 3..20 unhandled packets without a "
@@ -150,10 +159,25 @@ def run(ctx):
     reps = 3 if ctx.thorough else 1
     n_batches = 12 if ctx.thorough else 4
 
-    for role, cls, auth, hexdump in SITUATIONS:
-        sit_name = "%s/%s/%s%s" % (role, cls, "auth" if auth else "noauth", "/hexdump" if hexdump else "")
-        pair = L.Pair(role, cls, auth)
-        pair.subject.set_hexdump(hexdump)
+    for role, cls, auth, hexdump, cipher, strict, rekeys in SITUATIONS:
+        sit_name = "%s/%s/%s%s%s%s%s" % (role, cls, "auth" if auth else "noauth", "/hexdump" if hexdump else "",
+                                       "/" + cipher if cipher else "", "" if strict else "/non-strict",
+                                       "/after-%d-rekeys" % rekeys if rekeys else "")
+
+        def make_pair():
+            p_ = L.Pair(role, cls, auth, strict=strict, cipher=cipher)
+            p_.subject.set_hexdump(hexdump)
+            if cipher and p_.subject.remote_cipher != cipher:
+                raise InfraError("cipher %s not negotiated" % cipher)
+            if bool(p_.subject.agreed_on_strict_kex) != strict:
+                raise InfraError("strict kex agreement is not %s" % strict)
+            for i in range(rekeys):
+                (p_.peer if i % 2 == 0 else p_.subject).renegotiate_keys()
+                L.wait_until(lambda: all(t.local_kex_init is None and t.clear_to_send.is_set() and not t.in_kex
+                                         for t in (p_.tc, p_.ts)), 60, "the re-exchange to settle on both sides")
+            return p_
+
+        pair = make_pair()
         deaths = 0
         try:
             sit = pair.situation()
@@ -166,8 +190,7 @@ def run(ctx):
             def fresh():
                 nonlocal pair
                 pair.close()
-                pair = L.Pair(role, cls, auth)
-                pair.subject.set_hexdump(hexdump)
+                pair = make_pair()
 
             def one(types_payloads, what):
                 """send the packets back to back, one barrier, record model request(s) + observation"""
@@ -325,7 +348,7 @@ META = {
               "sequence number (type 3: by nothing), nothing else changes and the session stays active; lifted to "
               "arbitrary runs of such packets; instantiated for the tables read from the source on every run "
               "(decide +kernel over 256 types x 16 situations). The run-loop model is tied to Transport.run by an "
-              "exhaustive differential run over every unhandled type in 8 situations (incl. set_hexdump(True)) with random payloads."),
+              "exhaustive differential run over every unhandled type in 20 situations (hexdump on/off, ctr/cbc/gcm ciphers, strict kex on/off, after re-exchanges); the expected sequence number is the sending peer's own outbound counter with random payloads."),
     "note": ("Trusted: Lean kernel + 3 standard axioms; table reader/AST test in pv/lib_runloop.py; the "
              "correspondence harness. 'Established' = after NEWKEYS with no kex step armed (during a re-exchange "
              "unexpected types are fatal by design, see C09). Handlers of handled types are outside this property. "
